@@ -12,28 +12,39 @@ DRIVER = "C29"
 GENERATED = ["storage"]
 SOURCES = ["src/allmydata/storage/immutable.py", "src/allmydata/storage/server.py", "src/allmydata/util/fileutil.py"]
 DESIGN_REF = "DESIGN.md §2 C29"
-TECHNIQUE = ("Lean 4 theorems over every crash prefix of the primitive file operations of each immutable storage operation "
-             "(FsOp model); a fault-injecting file layer (patched open / os.rename / os.remove / os.rmdir / os.makedirs) "
-             "records the primitive operations of the real code, kills it at every index, restarts a fresh StorageServer "
-             "on the directory and compares the surviving container bytes with the model, while a monitor evaluates the "
-             "statement on the restarted server")
-LEVEL_TEXT = ("other_shares_untouched, immutable_absent_or_complete and incoming_discarded_at_restart are proved for all states, "
-              "operations and crash indexes; lease_ops_preserve_data is refuted for immutable add_lease (proved negation witness, "
-              "reproduced on the real code: known finding) and proved at every other crash index.")
+TECHNIQUE = ("Lean 4 theorems over every crash prefix (and every torn write) of the primitive file operations of each immutable "
+             "storage operation (FsOp model: create/pwrite/truncate/rename/unlink/mkdir/rmdir in program order; restart = "
+             "_clean_incomplete + reopening); a fault-injecting file layer (patched open / os.rename / os.remove / os.rmdir / "
+             "os.makedirs) records the primitive operations of the real code, kills it at every index and inside every write "
+             "(torn after 1 byte and after half of the bytes), restarts a fresh StorageServer on the directory and compares the "
+             "surviving container bytes with the model, while a monitor evaluates the statement on the restarted server")
+LEVEL_TEXT = ("Proved for all states, operations and crash indexes: other_shares_untouched (+ _seq for whole server operations, "
+              "+ _torn), immutable_absent_or_complete (+ _torn; rename is the commit point), incoming_discarded_at_restart and "
+              "restart_discards_uploads (server level: no writer, handle, reservation survives). lease_ops_preserve_data is "
+              "REFUTED for immutable add_lease (lease_ops_preserve_data_counterexample, torn_add_lease_counterexample; reproduced "
+              "on the real code: the one open known finding) and proved at every other crash index "
+              "(lease_ops_preserve_data_partial, every_crash_prefix_absent_or_complete_partial; these two stay _partial because "
+              "the defect is genuine and format-level). For mutable add_lease (extra-lease append) "
+              "mutable_add_extra_lease_crash_effect proves the share data unchanged at every crash index (the leases of the "
+              "operated-on share being unreadable at index 1 is recorded as an observation, not a C29 clause).")
 LEVEL_NOTE = ("Lean kernel + standard axioms; primitive-operation lists hand-written and compared with the recorded trace of the "
-              "real code on every case; a single write/rename is atomic, durability (fsync) is not modelled; mutable containers "
-              "are not covered by this check.")
-RULE = ("seeded histories (2-12 ops) followed by one storage operation under test (allocate_buckets, write, close, abort, "
-        "add_lease); the operation is re-run killing the process model at every primitive file operation index, then a fresh "
-        "StorageServer is started on the directory; a case is one (history, operation, crash index); non-trivial = crash index "
-        "strictly inside the operation (0 < n < number of primitive operations)")
+              "real code on every case (correspondence only, by nature); rename/unlink/mkdir are atomic, a write may be torn; "
+              "durability (fsync) is not modelled; of the mutable containers only the add_lease extra-lease append is covered "
+              "(growth, truncation, deletion belong to C23-C25).")
+RULE = ("fixed corpus (one case per known mechanism: seeds C29-a..d, renewals on shares with 1/2/3 leases via renew_lease / "
+        "add_lease / repeated allocate_buckets, mutable add_lease probe with 4/5/7 leases) then seeded histories (2-12 ops) "
+        "followed by one storage operation under test (allocate_buckets, write, close, abort, add_lease, renew_lease); the "
+        "operation is re-run killing the process model at every primitive file operation index and inside every write, then a "
+        "fresh StorageServer is started on the directory; VERIF_CORPUS_ONLY=1 runs the fixed corpus only; a case is one "
+        "(history, operation, crash index[, torn length]); non-trivial = crash index strictly inside the operation or a torn write")
 TRUSTED = ["lean/Tahoe/Storage/Crash.lean: hand transcription of the program order of file operations in storage/immutable.py / server.py "
            "(compared with the recorded trace on every case)",
            "the fault-injecting file layer in harness/props/c29.py (unbuffered pread/pwrite file object replacing open() in "
-           "allmydata.storage.immutable; os.rename/remove/unlink/rmdir/makedirs wrappers)",
+           "allmydata.storage.immutable / mutable; os.rename/remove/unlink/rmdir/makedirs wrappers; torn writes = a prefix is written)",
            "harness/shims/collections_extended (RangeMap stand-in)",
            "lease records are serialised by the real HashedLeaseSerializer and passed to the model as opaque bytes"]
-ASSUMPTIONS = ["a single write() / rename() / unlink() is atomic; a crash happens between primitive operations",
+ASSUMPTIONS = ["rename() / unlink() / mkdir are atomic; a write may be torn (a prefix of its bytes reaches the file); a crash "
+               "otherwise happens between primitive operations",
                "everything written before the crash is durable (no fsync / page-cache modelling)",
                "Python-level buffering does not reorder writes (the real code seeks between the two writes of add_lease, which "
                "flushes the first)",
